@@ -54,6 +54,7 @@ def _s(r):
 
 import os as _os
 _SLOWDUMP = _os.environ.get("VERIF_SLOWDUMP")
+_MAXVIOL = int(_os.environ.get("VERIF_MAX_VIOL", "60"))
 
 
 class Engine:
@@ -71,6 +72,7 @@ class Engine:
             unknown=0, trivial=0, known_hits=0, nontrivial_paths=0,
         )
         self.violations = []
+        self.label_counts = {}
         self.unknowns = []
         self.samples = []
         self.reached = set()  # witness labels (vacuity guard)
@@ -345,8 +347,7 @@ class Engine:
             return True
         if r == "sat":
             self.stats["violated"] += 1
-            if len(self.violations) < 6:
-                self.violations.append(dict(label=label, info=info, witness=self.witness([neg] + excl)))
+            self._record_violation(label, info, [neg] + excl)
             return False
         self.stats["unknown"] += 1
         if len(self.unknowns) < 20:
@@ -373,9 +374,14 @@ class Engine:
         """A concrete (path-level) violation: the path itself is the counterexample."""
         self.stats["obligations"] += 1
         self.stats["violated"] += 1
-        if len(self.violations) < 6:
-            self.violations.append(dict(label=label, info=info, witness=self.witness([])))
+        self._record_violation(label, info, [])
         return False
+
+    def _record_violation(self, label, info, extra):
+        n = self.label_counts.get(label, 0)
+        self.label_counts[label] = n + 1
+        if n < 2 and len(self.violations) < 30:   # at most two witnesses per distinct claim
+            self.violations.append(dict(label=label, info=info, witness=self.witness(extra)))
 
     def witness(self, extra):
         """Concrete values for all registered inputs (prefers 'nice' dyadic values for exact float replay)."""
@@ -596,7 +602,7 @@ class Engine:
                 self.samples.append(self.sample(outcome))
             if self.stats["paths"] >= max_paths:
                 raise RuntimeError("max_paths exceeded")
-            if self.stats["violated"] >= 60:
+            if self.stats["violated"] >= _MAXVIOL:
                 self.stats["stopped_early"] = 1   # enough counterexamples: the shard stops (the verdict is already 'violated')
                 break
 
